@@ -122,8 +122,35 @@ def keys_in(an, prog, e, depth=0):
     return out
 
 
+def generic_target(prog, c):
+    """Call of a crate helper generic in the target type: the helper converts with `T::try_from(..)` /
+    `..try_into::<T>()` where T is one of its type parameters — T is then the call's generic argument."""
+    hb = prog.bodies.get(c.path)
+    if hb is None or not c.local:
+        return None
+    gens = prog.facts["bodies"][c.path].get("generics") or []
+    for blk, t, cc in hb.calls():
+        if cc is None:
+            continue
+        tp = None
+        if cc.nsyn == "std::convert::TryFrom::try_from" and cc.syn_args:
+            tp = cc.syn_args[0]
+        elif cc.nsyn == "std::convert::TryInto::try_into" and len(cc.syn_args) > 1:
+            tp = cc.syn_args[1]
+        if tp is None:
+            continue
+        if tp in gens and gens.index(tp) < len(c.args or []):
+            return c.args[gens.index(tp)]
+        return tp
+    return None
+
+
 def target_of(an, prog, e):
     """The T of the `try_into::<T>` performed on the looked-up value."""
+    for n in find(e, lambda n: n[0] == "call" and n[2] is not None and n[2].local and n[2].kind == "Item"):
+        t = generic_target(prog, n[2])
+        if t:
+            return t
     for c in find(e, lambda n: n[0] == "closure"):
         b = prog.body(c[1])
         if b is None:
@@ -217,6 +244,24 @@ def produced_kinds(an, prog):
     return out, wt
 
 
+def default_field(prog, an, e):
+    """`..Default::default()` struct update: the field of a (derived) Default value of a crate struct; Option fields
+    default to None."""
+    if e[0] == "field" and peel(e[1])[0] == "call" and peel(e[1])[2] is not None:
+        c = peel(e[1])[2]
+        if c.nsyn == "std::default::Default::default" and c.local:
+            db = prog.bodies.get(c.path)
+            if db is not None:
+                for (blk, i, s) in block_aggs(db):
+                    if e[2] in s["rv"].get("fields", []):
+                        o = s["rv"]["ops"][s["rv"]["fields"].index(e[2])]
+                        v = peel(an.opx(db, o))
+                        if v[0] == "call" and v[2] is not None and v[2].nsyn == "std::default::Default::default" and any(str(a).startswith("std::option::Option<") for a in (v[2].syn_args or [])):
+                            return ("agg", "std::option::Option", "None", [])
+                        return v
+    return e
+
+
 def run(ctx, env):
     prog = env.prog("default")
     an = An(prog)
@@ -242,8 +287,13 @@ def run(ctx, env):
             continue
         cb, s = aggs[0]
         for nm, o in zip(s["rv"]["fields"], s["rv"]["ops"]):
-            e = peel(an.opx(cb, o))
+            e = default_field(prog, an, peel(an.opx(cb, o)))
             want = FIXED.get(nm)
+            if e[0] == "agg" and e[2] == "Some" and want is not None:
+                # Some(IpAddr::V4(x)) is what Some(x.into()) builds
+                i0 = peel(e[3][0], widen=True)
+                if i0[0] == "agg" and i0[1] == "std::net::IpAddr" and len(i0[3]) == 1:
+                    e = ("agg", e[1], e[2], [i0[3][0]])
             if want is None:
                 ok = e[0] == "agg" and e[2] == "None"
                 ctx.ob("R13.1", fn, "field:%s" % nm, ok, "%s = %s (expected None)" % (nm, canon(e)[:100]), site=site(s["span"]))
@@ -291,11 +341,12 @@ def run(ctx, env):
         dtb = prog.impl_fn("variable_versions::data_number::FieldDataType", "From<%s>" % P["enum"], "from")
         dtt = switch_table(an, dtb, lambda e: True) if dtb is not None else None
         for nm, o in zip(s["rv"]["fields"], s["rv"]["ops"]):
-            e = an.op(b, o)
+            e = an.opx(b, o)
             ks = keys_in(an, prog, e)
             want = P["keys"][nm]
-            ctx.ob("R13.2", P["fn"], "keys:%s" % nm, ks == want, "%s looks up %s, expected %s" % (nm, ks, want), site=site(s["span"]))
-            T = target_of(an, prog, e)
+            # which of several keys is preferred when a record carries more than one is not part of the property
+            ctx.ob("R13.2", P["fn"], "keys:%s" % nm, sorted(set(ks)) == sorted(set(want)), "%s looks up %s, expected %s" % (nm, ks, want), site=site(s["span"]))
+            T = target_of(an, prog, an.op(b, o)) or target_of(an, prog, e)
             fv, dn = accepted_kinds(an, prog, T) if T else (None, None)
             if fv is None:
                 ctx.ob("R13.3", P["fn"], "target:%s" % nm, False, "cannot determine the conversion target of %s (T=%s)" % (nm, T))
